@@ -125,6 +125,27 @@ DtypeFns == {"sq", "inv"}
 DtypeCases == {<<fam, gk, fn, m>> : fam \in Families, gk \in GivenDtypes, fn \in DtypeFns,
                                     m \in Methods \ {"draw_sample"}}
 
+(* dependence functions declared WITH the fit-time option bounds= (one (lower, upper) pair per   *)
+(* coefficient of the callable) and evaluated WITHOUT a preceding fit.  The callable is           *)
+(* f(x, c, a=A, b=B) = a + b x c: the coefficients of an unfitted dependence function are the      *)
+(* defaults declared by the callable (1 where it declares none: c).  bounds restrict a FIT; they   *)
+(* are no input of an evaluation.  Kind = where the declared defaults lie relative to the bounds:  *)
+(*   inside   - every default inside its bounds (the usual declaration)                            *)
+(*   above    - the default of a above its upper bound        below - that of b below its lower     *)
+(*   implicit - the implicit default 1 of c outside its bounds [2, 3]                               *)
+(*   zero     - the upper bound 0 (a falsy number) below the defaults of c and b                    *)
+(* BoundsOutside(k) = the coefficients whose default lies outside.  "chained": the function of     *)
+(* every parameter takes a second dependence function (declared with bounds of the same kind)      *)
+(* as parameter.  Every parameter of the family is dependent.                                      *)
+BoundsKinds == {"inside", "above", "below", "implicit", "zero"}
+BoundsCoefs == {"c", "a", "b"}
+BoundsOutside(k) == CASE k = "inside" -> {} [] k = "above" -> {"a"} [] k = "below" -> {"b"}
+                      [] k = "implicit" -> {"c"} [] k = "zero" -> {"c", "b"}
+BoundsChains == {"plain", "chained"}
+BoundsShapes == {"ss", "vv"}
+BoundsCases == {<<fam, bk, ch, s, m>> : fam \in Families, bk \in BoundsKinds, ch \in BoundsChains,
+                                        s \in BoundsShapes, m \in Methods}
+
 ----------------------------------------------------------------------------
 (* C11: fixed parameters through fitting                                      *)
 
